@@ -51,7 +51,7 @@ theorem perm_invariant {l₁ l₂ : List (Row F)} (h : l₁.Perm l₂) (S : List
   · simp only [gformula, W, hs]
   · simp only [aipw1, wmean, hb]
   · simp only [aipw0, wmean, hb]
-  · simp only [aipwVar, aipwEst, lmean_perm h, svar_perm h, h.length_eq]
+  · simp only [aipwVar_def, aipwEst, lmean_perm h, svar_perm h, h.length_eq]
   · simp only [ipsw, hajek, hs]
   · simp only [gtransport, gformula, W, hs]
   · simp only [aipsw, W, hs]
@@ -282,7 +282,7 @@ theorem flip_variance (l : List (Row F))
     unfold aipwEst
     rw [lmean_map, lmean_congr (fun r _ => hd r), lmean_mul_left]
   refine ⟨by rw [he]; ring, ?_⟩
-  unfold aipwVar
+  rw [aipwVar_def, aipwVar_def]
   rw [svar_map, List.length_map, he]
   rw [svar_congr (g := fun r => -1 * (aipwDiff Q g1 g0 r - aipwEst l Q g1 g0)) (fun r _ => by rw [hd r]; ring),
     svar_mul_left]
@@ -478,7 +478,7 @@ theorem outcome_affine_variance (c d : F) (l : List (Row F))
     unfold aipwEst
     rw [lmean_map, lmean_congr hd, lmean_mul_left]
   refine ⟨he, ?_⟩
-  unfold aipwVar
+  rw [aipwVar_def, aipwVar_def]
   rw [svar_map, List.length_map, he]
   rw [svar_congr (g := fun r => c * (aipwDiff Q g1 g0 r - aipwEst l Q g1 g0)) (fun r hr => by rw [hd r hr]; ring),
     svar_mul_left]
